@@ -285,6 +285,14 @@ class World:
                     fail("C14.contents", f"block #{idx} of {a.getName()} has axial index {int(b.spatialLocator.k)} / wrong parent", what="block-index")
                 if block_fingerprint(b) != self.fp[self.o2h[id(b)]]:
                     fail("C14.contents", f"contents of block #{idx} of {a.getName()} changed", what="fingerprint")
+                # somebody looks at the cross sections at every step (they are cached on the block);
+                # an assembly in the pool is a whole assembly, whatever part of it was in the model
+                # while it sat on a symmetry line of the core
+                area = float(b.getArea())
+                if h in m.pool:
+                    whole = float(sum(c.getArea() for c in b))
+                    if abs(area - whole) > 1e-9 * max(abs(whole), 1e-300):
+                        fail("C14.contents", f"block #{idx} of pool assembly {a.getName()} reports a cross section of {area}, its components add up to {whole}", what="pool-area")
 
     # ---- operations
     def pick_core(self, idx):
